@@ -181,6 +181,11 @@ def run(prog: Program, rep: Report, tier: str) -> None:
                 want_swing_frame = is_sep and sw_given and not is_upd
                 if bool(swings) != want_swing_frame and (is_sep or not_sep):
                     fail("R16.3", f"separate-swing={is_sep} swing requested={sw_given} update-only={is_upd}: {len(swings)} swing command(s) built; expected {'one' if want_swing_frame else 'none'}")
+                not_upd = neg(("truthy", upd)) in pcs or neg(upd) in pcs
+                if swings and not is_upd and not not_upd:
+                    # the path never looks at update_state, so it is also the path taken in update-only mode
+                    fail("R16.3", "a swing command is built and sent on a path that never tests update_state: the same path is taken in state-update-only mode, where no IR code may be sent "
+                                  "(and a swing-only request on a separate-swing remote must raise RuntimeError)")
                 for e in swings:
                     if e.args[:1] != (("sym", "swing", ("enum", f"{DEV}:ThermostatSwing")),):
                         fail("R16.3", f"swing command built for {T.show(e.args[0])[:60] if e.args else None}, not the requested swing")
